@@ -104,38 +104,69 @@ func ruleFileStampReachesEveryNode(c *core.Ctx) {
 			reaches := false
 			var scan func(body ast.Node, depth int)
 			scan = func(body ast.Node, depth int) {
+				// expressions that stand for the list of type parameters: `X.TypeParameters` and locals bound to it
+				aliases := map[types.Object]bool{}
+				isTP := func(e ast.Expr) bool {
+					switch x := ast.Unparen(e).(type) {
+					case *ast.SelectorExpr:
+						return x.Sel.Name == "TypeParameters"
+					case *ast.Ident:
+						return aliases[info.ObjectOf(x)]
+					}
+					return false
+				}
+				ast.Inspect(body, func(k ast.Node) bool {
+					if as, ok := k.(*ast.AssignStmt); ok && len(as.Lhs) == 1 && len(as.Rhs) == 1 && isTP(as.Rhs[0]) {
+						if id, ok := as.Lhs[0].(*ast.Ident); ok {
+							aliases[info.ObjectOf(id)] = true
+						}
+					}
+					return true
+				})
+				// elements: the value variable of a range over the list, or list[i]
+				elems := map[types.Object]bool{}
+				ast.Inspect(body, func(k ast.Node) bool {
+					if rs, ok := k.(*ast.RangeStmt); ok && isTP(rs.X) && rs.Value != nil {
+						if o := identObj(info, rs.Value); o != nil {
+							elems[o] = true
+						}
+					}
+					return true
+				})
+				isElem := func(e ast.Expr) bool {
+					switch x := ast.Unparen(e).(type) {
+					case *ast.Ident:
+						return elems[info.ObjectOf(x)]
+					case *ast.IndexExpr:
+						return isTP(x.X)
+					}
+					return false
+				}
 				ast.Inspect(body, func(k ast.Node) bool {
 					switch y := k.(type) {
-					case *ast.RangeStmt:
-						se, ok := y.X.(*ast.SelectorExpr)
-						if !ok || se.Sel.Name != "TypeParameters" || y.Value == nil {
-							return true
-						}
-						v := identObj(info, y.Value)
-						ast.Inspect(y.Body, func(q ast.Node) bool {
-							if ce, ok := q.(*ast.CallExpr); ok {
-								for _, a := range ce.Args {
-									if identObj(info, a) == v && v != nil {
-										reaches = true
-									}
-								}
-							}
-							if as, ok := q.(*ast.AssignStmt); ok { // stamps the parameter directly
-								for _, l := range as.Lhs {
-									if s2, ok := l.(*ast.SelectorExpr); ok && s2.Sel.Name == "File" {
-										reaches = true
-									}
-								}
-							}
-							return true
-						})
 					case *ast.CallExpr:
-						// a helper of the package that receives the node: look inside (one level)
+						for _, a := range y.Args {
+							if isElem(a) {
+								reaches = true
+							}
+						}
+						// a helper of the package that receives the node: look inside (two levels)
 						if depth < 2 {
 							if fn, _ := typeutil.Callee(info, y).(*types.Func); fn != nil && fn.Pkg() == p.Types {
 								if hd := c.Decl(fn); hd != nil && hd.Body != nil && hd != d {
 									scan(hd.Body, depth+1)
 								}
+							}
+						}
+					case *ast.AssignStmt: // stamps the parameter directly: elem.File = path / list[i].NodeMeta.File = path
+						for _, l := range y.Lhs {
+							if s2, ok := l.(*ast.SelectorExpr); ok && s2.Sel.Name == "File" {
+								ast.Inspect(s2.X, func(q ast.Node) bool {
+									if e, ok := q.(ast.Expr); ok && isElem(e) {
+										reaches = true
+									}
+									return true
+								})
 							}
 						}
 					}
@@ -892,6 +923,32 @@ func rulePositionalSlicesIndexedByTheirOwnLoop(c *core.Ctx) {
 									return true
 								})
 							}
+						}
+						if !good && key != nil {
+							// a function of the loop's index alone (`len(S)-1-i`: the list is filled back to front)
+							usesKey, usesOther := false, false
+							inS := map[string]bool{}
+							ast.Inspect(loop.X, func(q ast.Node) bool {
+								if id, ok := q.(*ast.Ident); ok {
+									inS[id.Name] = true
+								}
+								return true
+							})
+							ast.Inspect(ie.Index, func(q ast.Node) bool {
+								if id, ok := q.(*ast.Ident); ok {
+									switch {
+									case info.ObjectOf(id) == key:
+										usesKey = true
+									case id.Name == "len" || inS[id.Name]:
+									default:
+										if _, isConst := info.ObjectOf(id).(*types.Const); !isConst {
+											usesOther = true
+										}
+									}
+								}
+								return true
+							})
+							good = usesKey && !usesOther
 						}
 						c.Check(good, rule, fmt.Sprintf("%s/%s[…] inside range %s", c.FuncName(d), types.ExprString(ie.X), ps.of), x.Pos(), "indexed by the loop's own index",
 							fmt.Sprintf("`%s` was made with len(%s) and is stored into inside `range %s`, but at index `%s`, not at the loop's index: the entry lands in the slot of another element of %s whenever the two numberings differ (a step added in front of a changed step: the added step's slot is overwritten and the changed step's conversion is missing)", types.ExprString(ie.X), ps.of, ps.of, types.ExprString(ie.Index), ps.of))
